@@ -440,6 +440,36 @@ CLAIMED['C04'] = dict(
          'slicing / math operators are modelled (correspondence) without oracle. 21 known findings '
          '(see known_findings.json), each with a witness replayed on every run.')
 
+CLAIMED['C13'] = dict(
+    technique='Lean 4 theorems about the upsert path of the model of Collection._update '
+              '(sentinel iteration, _expand_dots, _discard_operators, $setOnInsert): upsert iff '
+              'no match, equal to the plain call otherwise, seed laws; tied to the code by '
+              'history correspondence and an independent seed + operator reference on python',
+    text='Lean 4 theorems about applyUpdateColl / expandDots / discardOps (MongoModel/Store.lean, '
+         'Update.lean) for every state satisfying the C05 invariant, every filter and update: '
+         'with a match, the call with upsert=True EQUALS the call without (whole state, whole '
+         'result, errors included); without upsert nothing is ever inserted; a successful '
+         'upserting call reports an upserted _id exactly when the filter selected nothing, and '
+         'then exactly one document was appended, stored under the reported _id, with n = 1, '
+         'nothing modified and nothing existing touched (upsert_iff_no_match); the reported '
+         'result has matched_count 0 and the stored _id as upserted_id; the seed takes every '
+         'plain equality of the filter, takes the operand of $eq, takes nothing from operator '
+         'conditions, and expands a dotted path into nested sub-documents; $setOnInsert is the '
+         'identity on an update of an existing document and $set on an insert. Tie: histories '
+         'dominated by upserting update_one / update_many / replace_one / find_one_and_update / '
+         '_replace and bulk requests with filters mixing equalities, $eq, dotted paths, _id and '
+         'operator conditions, half of them aimed at existing documents, run on /repo and on the '
+         'compiled model; on python the real find says what matches before the call, and '
+         'afterwards: one new document iff nothing matched, nothing else touched, a matching '
+         'call equals its twin run without upsert, the new document equals what an independent '
+         'reference (seed from the filter, then refupdate.py with $setOnInsert) builds, '
+         'upserted_id and matched_count are right, and a pure-equality filter the update does '
+         'not overwrite finds the new document again.',
+    note='upsert_iff_no_match assumes a TTL-free, non-empty collection (hn, hne); the '
+         'match-after-upsert guarantee is a run-time oracle (its Lean statement would need the '
+         'matcher/seed round trip, not proved). A null _id cannot be told from "no upsert" in '
+         'UpdateResult (hypothesis id ≠ null). One defect found and fixed in /repo: nullid.')
+
 PENDING = {
     'C02': 'model (MongoModel/Update.lean) and correspondence exist; theorems not yet proved',
     'C03': 'in progress: pipeline model depends on the expression model (C04)',
